@@ -3,7 +3,8 @@
 Decided statically: every strict branch of recovery ends in refusal; the strict reader and the snapshot loader return
 Ok only past their integrity guards; every corruption exit of the frame reader is counted; every end-of-file exit of
 the frame reader must be surfaced to the strict decision; a fallback snapshot must not be accepted silently under
-strict mode.  Necessary conditions; which damaged files are actually detected (checksum strength) is not decided.
+strict mode; a listed segment that cannot be opened, a recorded snapshot and the MANIFEST itself cannot be skipped / re-created
+(C13.R1 open failure, R7, R8).  Necessary conditions; which damaged files are actually detected (checksum strength) is not decided.
 """
 import re
 
@@ -13,7 +14,9 @@ MANIFEST = {
     'text': 'Decides the refusal structure of strict recovery on every CFG path: each switch on recovery_mode refuses on '
             'its Strict edge (or uses the strict reader), tolerant calls appear only on BestEffort edges, the strict reader '
             'and Snapshot::load return Ok only past their integrity guards, all corruption exits of the frame reader are '
-            'counted, end-of-file exits and fallback snapshots must be surfaced to the strict decision. Two of these clauses '
+            'counted, end-of-file exits and fallback snapshots must be surfaced to the strict decision; the failure edge of opening a listed '
+            'segment is propagated or decided by recovery_mode, a snapshot the MANIFEST names is loaded on every Strict path before the replay, '
+            'and the MANIFEST recovery decides on is the Ok value of Manifest::load (never created). Two of these clauses '
             'are violated on the pinned tree (known findings F7, F8).',
     'design_ref': 'DESIGN.md §4.13, §5 F7/F8',
     'note': 'Trusted base: rustc MIR, guard normal forms, Err-exit recognition. Detection power of CRC32 and bincode '
